@@ -502,9 +502,11 @@ def _work_rep(task):
         out['queries'] += len(seq) + len(got)
         if got != fresh:
             diff = sorted(q for q in fresh if fresh[q] != got.get(q))
+            # identified by (program, history): which probe differs first can itself depend on
+            # value-set order once a history has left a two-valued set behind
             out['fails'].append({
-                'site': 'answer-depends-on-earlier-queries@%s' % diff[0].split('@')[0],
-                'input': '%s|after%s|%s' % (task['id'], list(seq), diff[0]),
+                'site': 'answer-depends-on-earlier-queries',
+                'input': '%s|after%s' % (task['id'], list(seq)),
                 'detail': {'text': text, 'events': [events[i] for i in seq], 'probe': diff[0],
                            'fresh': fresh[diff[0]], 'after_history': got.get(diff[0])}})
     return out
